@@ -378,4 +378,211 @@ theorem factorOutPrefix_comm (rs : List RuleN) (A B : Name) (pA pB : List SymN) 
   simp only [Option.map_some]
   rw [passA_comm A B _ _ blkA blkB hAB]
 
+/-! ## the fold over a permuted prefix list -/
+
+abbrev PItem := Name × List SymN
+
+def stepP (acc : List RuleN) (x : PItem) : Option (List RuleN) := factorOutPrefix acc x.1 x.2
+
+/-- what the prefix list of one round satisfies, and keeps satisfying while it is folded -/
+def PInv (rs : List RuleN) (l : List PItem) : Prop :=
+  (l.map (·.1)).Nodup ∧
+    ∀ x ∈ l, rs.any (fun r => r.lhs = x.1) = true ∧ ∀ y ∈ symsNames x.2, y ∈ namesN rs
+
+theorem any_preserved {rs rs1 : List RuleN} {A B : Name} {pre : List SymN}
+    (h : factorOutPrefix rs A pre = some rs1) (hAB : A ≠ B)
+    (hB : rs.any (fun r => r.lhs = B) = true) : rs1.any (fun r => r.lhs = B) = true := by
+  obtain ⟨rB, hrB, hBB⟩ := any_lhs_iff.1 hB
+  apply any_lhs_iff.2
+  refine ⟨rB, ?_, hBB⟩
+  unfold factorOutPrefix at h
+  split at h
+  · split at h
+    · cases h
+    · have h := Option.some.inj h
+      subst h
+      exact mem_factored.2 (.inl ⟨hrB, fun e => hAB (e.symm.trans hBB).symm.symm⟩)
+  · have h := Option.some.inj h
+    subst h
+    exact hrB
+
+theorem PInv_step {rs rs1 : List RuleN} {x : PItem} {t : List PItem}
+    (h : stepP rs x = some rs1) (hinv : PInv rs (x :: t)) : PInv rs1 t := by
+  obtain ⟨hn, hall⟩ := hinv
+  simp only [List.map_cons, List.nodup_cons] at hn
+  refine ⟨hn.2, ?_⟩
+  intro y hy
+  obtain ⟨h1, h2⟩ := hall y (by simp [hy])
+  have hne : x.1 ≠ y.1 := fun e => hn.1 (e ▸ List.mem_map.2 ⟨y, hy, rfl⟩)
+  exact ⟨any_preserved h hne h1, fun z hz => names_kept h z (h2 z hz)⟩
+
+theorem PInv_perm {rs : List RuleN} {l1 l2 : List PItem} (hp : l1.Perm l2) (h : PInv rs l1) :
+    PInv rs l2 :=
+  ⟨(hp.map _).nodup_iff.1 h.1, fun x hx => h.2 x (hp.mem_iff.2 hx)⟩
+
+theorem foldlM_perm {l1 l2 : List PItem} (hp : l1.Perm l2) :
+    ∀ rs, PInv rs l1 → l1.foldlM stepP rs = l2.foldlM stepP rs := by
+  induction hp with
+  | nil => intro rs _; rfl
+  | cons x _ ih =>
+    intro rs hinv
+    simp only [List.foldlM_cons]
+    cases h : stepP rs x with
+    | none => rfl
+    | some rs1 => exact ih rs1 (PInv_step h hinv)
+  | swap x y l =>
+    intro rs hinv
+    simp only [List.foldlM_cons]
+    have hx := hinv.2 x (by simp)
+    have hy := hinv.2 y (by simp)
+    have hne : x.1 ≠ y.1 := by
+      have := hinv.1
+      simp only [List.map_cons, List.nodup_cons, List.mem_cons, not_or] at this
+      exact fun e => this.1.1 e.symm
+    have hc := factorOutPrefix_comm rs y.1 x.1 y.2 x.2 (Ne.symm hne) hy.2 hx.2 hy.1 hx.1
+    show (stepP rs y).bind (fun r => (stepP r x).bind (fun r => l.foldlM stepP r)) =
+      (stepP rs x).bind (fun r => (stepP r y).bind (fun r => l.foldlM stepP r))
+    have e1 : ∀ (o : Option (List RuleN)) (f g : List RuleN → Option (List RuleN)),
+        o.bind (fun r => (f r).bind g) = (o.bind f).bind g := by
+      intro o f g; cases o <;> rfl
+    rw [e1, e1]
+    exact congrArg (fun o => Option.bind o (fun r => l.foldlM stepP r)) hc
+  | trans hp1 _ ih1 ih2 =>
+    intro rs hinv
+    exact (ih1 rs hinv).trans (ih2 rs (PInv_perm hp1 hinv))
+
+/-! ## the prefix list of one round satisfies the invariant -/
+
+theorem firstOccs_nodup : ∀ l : List Name, (firstOccs l).Nodup
+  | [] => List.nodup_nil
+  | a :: l => by
+    simp only [firstOccs, List.nodup_cons, List.mem_filter, decide_eq_true_eq, ne_eq,
+      not_true_eq_false, and_false, not_false_eq_true, true_and]
+    exact (firstOccs_nodup l).sublist List.filter_sublist
+
+theorem findPrefixN_take (cands : List (List SymN)) (n : Nat) :
+    findPrefixN cands n = [] ∨ ∃ c ∈ cands, findPrefixN cands n = c.take n := by
+  unfold findPrefixN
+  simp only
+  split
+  · exact .inl rfl
+  · split
+    · rename_i k v hb
+      split
+      · right
+        have hk := ((bestFirst_spec _).2 k v hb).1
+        simp only [prefixesOfLen, List.mem_filterMap] at hk
+        obtain ⟨c, hc, hck⟩ := hk
+        split at hck
+        · injection hck with hck
+          exact ⟨c, hc, hck.symm⟩
+        · cases hck
+      · exact .inl rfl
+    · exact .inl rfl
+
+theorem findLongestPrefix_take (cands : List (List SymN)) : ∀ (f n : Nat),
+    findLongestPrefix cands f n = [] ∨ ∃ c ∈ cands, ∃ m, findLongestPrefix cands f n = c.take m
+  | 0, _ => .inl rfl
+  | f+1, n => by
+    simp only [findLongestPrefix]
+    split
+    · exact .inl rfl
+    · split
+      · rcases findPrefixN_take cands n with h | ⟨c, hc, h⟩
+        · exact .inl h
+        · exact .inr ⟨c, hc, n, h⟩
+      · split
+        · rcases findPrefixN_take cands (n + 1) with h | ⟨c, hc, h⟩
+          · exact .inl h
+          · exact .inr ⟨c, hc, n + 1, h⟩
+        · exact findLongestPrefix_take cands f (n + 2)
+
+theorem symsNames_take (c : List SymN) (m : Nat) : ∀ x ∈ symsNames (c.take m), x ∈ symsNames c := by
+  intro x hx
+  have : c = c.take m ++ c.drop m := (List.take_append_drop m c).symm
+  rw [this, symsNames_append]
+  exact List.mem_append_left _ hx
+
+theorem map_fst_filterMap_sublist (rs : List RuleN) : ∀ l : List (Name × List RuleN),
+    ((l.filterMap fun (x : Name × List RuleN) =>
+        let p := findPrefix (x.2.map (·.rhs))
+        if p.isEmpty then none else some (x.1, p)).map (·.1)).Sublist (l.map (·.1))
+  | [] => List.Sublist.slnil
+  | x :: l => by
+    simp only [List.filterMap_cons, List.map_cons]
+    split
+    · rename_i hnone
+      exact (map_fst_filterMap_sublist rs l).cons _
+    · rename_i b hsome
+      split at hsome
+      · cases hsome
+      · injection hsome with hsome
+        subst hsome
+        exact (map_fst_filterMap_sublist rs l).cons₂ _
+
+theorem prefixes_inv {ord : GroupOrd} (hord : ∀ l, (ord l).Perm l) (rs : List RuleN) :
+    PInv rs (findLongestPrefixes ord rs) := by
+  have hg : ((groupByLhs rs).map (·.1)) = firstOccs (rs.map (·.lhs)) := by
+    simp [groupByLhs, List.map_map, Function.comp_def]
+  constructor
+  · have h1 : ((ord (groupByLhs rs)).map (·.1)).Nodup := by
+      rw [((hord (groupByLhs rs)).map _).nodup_iff, hg]
+      exact firstOccs_nodup _
+    exact h1.sublist (map_fst_filterMap_sublist rs _)
+  · intro x hx
+    simp only [findLongestPrefixes, List.mem_filterMap] at hx
+    obtain ⟨⟨A, grp⟩, hmem, hx⟩ := hx
+    simp only at hx
+    split at hx
+    · cases hx
+    · rename_i hne
+      injection hx with hx
+      subst hx
+      have hmem' : (A, grp) ∈ groupByLhs rs := (hord _).mem_iff.1 hmem
+      simp only [groupByLhs, List.mem_map] at hmem'
+      obtain ⟨A', hA', he⟩ := hmem'
+      simp only [Prod.mk.injEq] at he
+      obtain ⟨rfl, rfl⟩ := he
+      obtain ⟨r, hr, hrA⟩ := List.mem_map.1 (mem_firstOccs.1 hA')
+      refine ⟨any_lhs_iff.2 ⟨r, hr, hrA⟩, ?_⟩
+      simp only
+      intro y hy
+      unfold findPrefix at hy hne
+      rcases findLongestPrefix_take ((rs.filter fun r => r.lhs = A').map (·.rhs)) _ 1 with h | ⟨c, hc, m, h⟩
+      · rw [h] at hne
+        simp at hne
+      · rw [h] at hy
+        obtain ⟨r', hr', rfl⟩ := List.mem_map.1 hc
+        exact mem_namesN.2 ⟨r', (List.mem_filter.1 hr').1, .inr (symsNames_take _ _ y hy)⟩
+
+/-! ## one round and the whole loop -/
+
+theorem factorOut_order_indep {ord1 ord2 : GroupOrd} (h1 : ∀ l, (ord1 l).Perm l)
+    (h2 : ∀ l, (ord2 l).Perm l) (rs : List RuleN) : factorOut ord1 rs = factorOut ord2 rs := by
+  have hp : (findLongestPrefixes ord1 rs).Perm (findLongestPrefixes ord2 rs) :=
+    List.Perm.filterMap _ ((h1 _).trans (h2 _).symm)
+  have hf := foldlM_perm hp rs (prefixes_inv h1 rs)
+  have he : (findLongestPrefixes ord1 rs).isEmpty = (findLongestPrefixes ord2 rs).isEmpty := by
+    have := hp.length_eq
+    cases h : findLongestPrefixes ord1 rs <;> cases h' : findLongestPrefixes ord2 rs <;>
+      simp_all
+  unfold factorOut
+  simp only
+  rw [← he]
+  exact congrArg (Option.map _) hf
+
+theorem leftFactorLoop_order_indep {ord1 ord2 : GroupOrd} (h1 : ∀ l, (ord1 l).Perm l)
+    (h2 : ∀ l, (ord2 l).Perm l) : ∀ (fuel : Nat) (rs : List RuleN),
+    leftFactorLoop ord1 fuel rs = leftFactorLoop ord2 fuel rs
+  | 0, _ => rfl
+  | f+1, rs => by
+    rw [leftFactorLoop, leftFactorLoop, factorOut_order_indep h1 h2 rs]
+    cases factorOut ord2 rs with
+    | none => rfl
+    | some p =>
+      obtain ⟨rs1, m⟩ := p
+      cases m with
+      | true => exact leftFactorLoop_order_indep h1 h2 f rs1
+      | false => rfl
+
 end ParolModel
